@@ -508,7 +508,21 @@ func genWS(g *lp.Gen) {
 	}
 	// an inbound stream of valid frames (data, fragmented, ping/pong), optionally ended by ONE invalid frame
 	var stream []byte
+	// the executor mode is drawn first: with a queued executor (a conn served by a poller) the interesting histories
+	// are those in which payloads ARE handed to jobs that run later, so such cases always receive at least one message,
+	// mostly release payloads, often stream data frames too, and are closed early less often
+	blk := g.Chance(1, 2)
+	qx := !blk && g.Chance(1, 2)
+	rp := g.Chance(2, 3)
+	df := g.Chance(1, 3)
+	if qx {
+		rp = g.Chance(5, 6)
+		df = g.Chance(2, 3)
+	}
 	nm := g.Intn(4)
+	if qx && nm == 0 {
+		nm = 1 + g.Intn(3)
+	}
 	for i := 0; i < nm; i++ {
 		size := g.PickInt(0, 1, 5, 125, 126, 200, 1000, 70000)
 		switch g.Intn(5) {
@@ -544,14 +558,12 @@ func genWS(g *lp.Gen) {
 	if g.Chance(1, 5) && len(stream) > 4 { // truncated: close during assembly / with cached bytes
 		stream = stream[:len(stream)-1-g.Intn(len(stream)/2)]
 	}
-	blk := g.Chance(1, 2)
-	qx := !blk && g.Chance(1, 2) // a conn served by a poller: Execute queues the handler jobs
 	g.P("C ws client=%d async=%d qmax=%d rp=%d blk=%d df=%d bad=%d fail=%d rc=%d qx=%d", bi(client), bi(async), qmax,
-		bi(g.Chance(2, 3)), bi(blk), bi(g.Chance(1, 3)), bad, fail, bi(g.Chance(1, 4)), bi(qx))
+		bi(rp), bi(blk), bi(df), bad, fail, bi(g.Chance(1, 4)), bi(qx))
 	rest := stream
 	nops := 3 + g.Intn(10)
 	closedAt := -1
-	if g.Chance(1, 2) {
+	if (!qx && g.Chance(1, 2)) || (qx && g.Chance(1, 4)) {
 		closedAt = g.Intn(nops)
 	}
 	for i := 0; i < nops; i++ {
@@ -563,7 +575,11 @@ func genWS(g *lp.Gen) {
 			g.P("J")
 			continue
 		}
-		switch g.Intn(6) {
+		pick := g.Intn(6)
+		if qx && len(rest) > 0 && g.Chance(1, 3) {
+			pick = 0 // feed the inbound stream more often: the jobs come from there
+		}
+		switch pick {
 		case 0, 1:
 			if len(rest) > 0 {
 				n := 1 + g.Intn(len(rest))
